@@ -441,15 +441,21 @@ structure ISReq where
   sizeOk : Bool      -- the streamed body has the announced size
 deriving DecidableEq, Repr
 
-/-- the term write of InstallSnapshot, if the request carries a newer term -/
+/-- does this InstallSnapshot make the server step down and persist the term (as `aeDown`: a newer
+    term, or a same-term request reaching a server that is not a follower) -/
+def isDown (v : Vol) (q : ISReq) : Prop := q.term > v.term ∨ (v.role ≠ .follower ∧ ¬ v.transfer)
+
+instance (v : Vol) (q : ISReq) : Decidable (isDown v q) := by unfold isDown; infer_instance
+
+/-- the term write of InstallSnapshot, if any -/
 def isPre (v : Vol) (q : ISReq) : List (Write × Res) :=
-  if q.term > v.term then
+  if isDown v q then
     [(.setTerm q.term, { mkRes (.install v.term false false) { v with role := .follower, leader := 0, leaderId := 0 } with panic := true })]
   else []
 
-/-- volatile state after the term / leader updates -/
+/-- volatile state after the term / role / leader updates -/
 def isVol2 (v : Vol) (q : ISReq) : Vol :=
-  let v1 : Vol := if q.term > v.term then stepDown v q.term else v
+  let v1 : Vol := if isDown v q then stepDown v q.term else v
   { v1 with leader := q.leader, leaderId := q.leaderId }
 
 /-- everything after the term part: the writes (snapshot, truncation, compaction) and the answer -/
